@@ -107,6 +107,25 @@ theorem gc_safes (v : Bytes) (hv : v.all safeByte = true) (l k : Nat) (r : Bytes
     rw [List.cons_append, gc_safe c hv.1, ih hv.2, prep_prep]
     rfl
 
+theorem gc_inner : ∀ (v : Bytes), innerOk v = true → ∀ (l k : Nat) (r : Bytes),
+    gobbleClose l k (v ++ r) = prep v (gobbleClose l k r)
+  | [], _, l, k, r => by simp
+  | [c], h, l, k, r => by
+    simp only [innerOk] at h
+    exact gc_safes [c] (by simp [h]) l k r
+  | c :: d :: t, h, l, k, r => by
+    simp only [innerOk, Bool.and_eq_true, Bool.or_eq_true, decide_eq_true_eq] at h
+    have ih := gc_inner (d :: t) h.2 l k r
+    rcases h.1 with hc | ⟨rfl, hd⟩
+    · rw [List.cons_append, gc_safe c hc, ih, prep_prep]; rfl
+    · cases l with
+      | zero =>
+        rw [List.cons_append, List.cons_append, gc_dot0_no k d (t ++ r) hd]
+        have := ih; simp only [List.cons_append] at this
+        rw [this, prep_prep]; rfl
+      | succ l =>
+        rw [List.cons_append, gc_dot_pos, ih, prep_prep]; rfl
+
 /-! ### skipping the text of a canonical tree inside a gobbler -/
 
 def GobSkips (u : List Part) : Prop :=
@@ -143,7 +162,7 @@ theorem gobSkipsPart : ∀ (p : Part), canonPart p = true → GobSkips [p]
     intro l k r
     simp only [canonPart] at h
     simp only [render_cons, renderPart_lit, render_nil, List.append_nil]
-    exact gc_safes v (safeLit_all v h) l k r
+    exact gc_inner v (innerLit_ok v h) l k r
   | .brace true elems, h => by
     intro l k r
     simp only [canonPart, if_true, Bool.and_eq_true] at h
@@ -274,6 +293,51 @@ theorem go_safes_lb (v : Bytes) (hv : v.all safeByte = true) (b : Bool) (r : Byt
     rw [List.cons_append, go_safe c hv.1, ih hv.2 false (by intro _; simp)]
     simp [prep]
 
+/-- Bytes allowed in a literal outside any brace group. -/
+def topByte (b : UInt8) : Bool := b ≠ cLB && b ≠ cBS && b ≠ cDollar
+
+theorem topByte_ne (c : UInt8) (h : topByte c = true) : c ≠ cLB ∧ c ≠ cBS ∧ c ≠ cDollar := by
+  have := h
+  simp only [topByte, Bool.and_eq_true, decide_eq_true_eq] at this
+  exact ⟨this.1.1, this.1.2, this.2⟩
+
+theorem safeByte_top (c : UInt8) (h : safeByte c = true) : topByte c = true := by
+  obtain ⟨h1, _, _, _, h5, h6⟩ := safeByte_ne c h
+  simp [topByte, h1, h5, h6]
+
+theorem go_top (c : UInt8) (h : topByte c = true) (b : Bool) (r : Bytes) :
+    gobbleOpen b 0 (c :: r) = prep [c] (gobbleOpen false 0 r) := by
+  obtain ⟨h1, h2, h3⟩ := topByte_ne c h
+  rw [gobbleOpen.eq_def]
+  simp only [h1, h2, h3, false_and, if_false, Nat.lt_irrefl, and_false]
+  cases gobbleOpen false 0 r with
+  | none => rfl
+  | some x => cases x; rfl
+
+theorem go_tops_none (v : Bytes) (hv : v.all topByte = true) (b : Bool) :
+    gobbleOpen b 0 v = none := by
+  induction v generalizing b with
+  | nil => rw [gobbleOpen.eq_def]
+  | cons c v ih =>
+    simp only [List.all_cons, Bool.and_eq_true] at hv
+    rw [go_top c hv.1, ih hv.2]; rfl
+
+theorem go_tops_lb (v : Bytes) (hv : v.all topByte = true) (b : Bool) (r : Bytes)
+    (h : v = [] → ¬ (b = true ∧ (r = [] ∨ r.head? = some cRB))) :
+    gobbleOpen b 0 (v ++ cLB :: r) = some (v, r) := by
+  induction v generalizing b with
+  | nil => simp only [List.nil_append]; exact go_lb b r (h rfl)
+  | cons c v ih =>
+    simp only [List.all_cons, Bool.and_eq_true] at hv
+    rw [List.cons_append, go_top c hv.1, ih hv.2 false (by intro _; simp)]
+    simp [prep]
+
+theorem findBrace_top (n : Nat) (b : Bool) (v : Bytes) (hv : v.all topByte = true) :
+    findBrace n b v = none := by
+  cases n with
+  | zero => simp [findBrace]
+  | succ n => simp only [findBrace, go_tops_none v hv b]
+
 /-! ### the comma test and `expand_amble` -/
 
 theorem hc_safe (c : UInt8) (h : c ≠ cBS) (h' : c ≠ cComma) (r : Bytes) :
@@ -315,6 +379,19 @@ theorem noBS_safe (v : Bytes) (hv : v.all safeByte = true) : noBS v := by
   intro c hc
   exact (safeByte_ne c (List.all_eq_true.mp hv c hc)).2.2.2.2.1
 
+theorem innerOk_top (v : Bytes) (h : innerOk v = true) : v.all topByte = true := by
+  rw [List.all_eq_true]
+  intro c hc
+  rcases innerOk_bytes v h c hc with h1 | rfl
+  · exact safeByte_top c h1
+  · decide
+
+theorem innerOk_noBS (v : Bytes) (h : innerOk v = true) : noBS v := by
+  intro c hc
+  rcases innerOk_bytes v h c hc with h1 | rfl
+  · exact (safeByte_ne c h1).2.2.2.2.1
+  · decide
+
 theorem noBS_joinSep (sep : Bytes) (hs : noBS sep) (xs : List Bytes) (hx : ∀ x ∈ xs, noBS x) :
     noBS (joinSep sep xs) := by
   induction xs with
@@ -348,7 +425,7 @@ mutual
 theorem noBSPart : ∀ (p : Part), canonPart p = true → noBS (renderPart p)
   | .lit v, h => by
     simp only [canonPart] at h
-    simpa using noBS_safe v (safeLit_all v h)
+    simpa using innerOk_noBS v (innerLit_ok v h)
   | .brace true elems, h => by
     simp only [canonPart, if_true, Bool.and_eq_true] at h
     rcases seq_elems_cases elems h.1 h.2 with ⟨a, b, rfl, ha, hb⟩ | ⟨a, b, c, rfl, ha, hb, hc⟩
@@ -484,6 +561,19 @@ theorem sa_safes (v : Bytes) (hv : v.all safeByte = true) (l : Nat) (r : Bytes) 
     rw [List.cons_append, sa_safe c hv.1, ih hv.2, prepHead_prepHead _ _ _ (splitAmble_ne_nil _ _)]
     rfl
 
+theorem sa_inner : ∀ (v : Bytes), innerOk v = true → ∀ (l : Nat) (r : Bytes),
+    splitAmble l (v ++ r) = prepHead v (splitAmble l r)
+  | [], _, l, r => by simp [splitAmble_ne_nil]
+  | [c], h, l, r => by
+    simp only [innerOk] at h
+    exact sa_safes [c] (by simp [h]) l r
+  | c :: d :: t, h, l, r => by
+    simp only [innerOk, Bool.and_eq_true, Bool.or_eq_true, decide_eq_true_eq] at h
+    have ih := sa_inner (d :: t) h.2 l r
+    rcases h.1 with hc | ⟨rfl, hd⟩
+    · rw [List.cons_append, sa_safe c hc, ih, prepHead_prepHead _ _ _ (splitAmble_ne_nil _ _)]; rfl
+    · rw [List.cons_append, sa_dot, ih, prepHead_prepHead _ _ _ (splitAmble_ne_nil _ _)]; rfl
+
 def AmbleSkips (u : List Part) : Prop :=
   ∀ (l : Nat) (r : Bytes), splitAmble l (render u ++ r) = prepHead (render u) (splitAmble l r)
 
@@ -519,7 +609,7 @@ theorem ambleSkipsPart : ∀ (p : Part), canonPart p = true → AmbleSkips [p]
     intro l r
     simp only [canonPart] at h
     simp only [render_cons, renderPart_lit, render_nil, List.append_nil]
-    exact sa_safes v (safeLit_all v h) l r
+    exact sa_inner v (innerLit_ok v h) l r
   | .brace true elems, h => by
     intro l r
     simp only [canonPart, if_true, Bool.and_eq_true] at h
@@ -623,7 +713,7 @@ theorem canon_split (a : List Part) (p : Part) (b : List Part) (h : canon (a ++ 
     · exact i1 q hq
 
 theorem render_lits_safe (a : List Part) (ha : a.all Part.isLit = true)
-    (hc : ∀ q ∈ a, canonPart q = true) : (render a).all safeByte = true := by
+    (hc : ∀ q ∈ a, canonPart q = true) : (render a).all topByte = true := by
   induction a with
   | nil => simp
   | cons x xs ih =>
@@ -633,7 +723,7 @@ theorem render_lits_safe (a : List Part) (ha : a.all Part.isLit = true)
       simp only [canonPart] at hv
       simp only [List.all_cons, isLit_lit, Bool.true_and] at ha
       simp only [render_cons, renderPart_lit, List.all_append, Bool.and_eq_true]
-      exact ⟨safeLit_all v hv, ih ha (fun q hq => hc q (by simp [hq]))⟩
+      exact ⟨innerOk_top v (innerLit_ok v hv), ih ha (fun q hq => hc q (by simp [hq]))⟩
     | brace s e => simp at ha
 
 @[simp] theorem seqsAgree_nil : seqsAgree [] = true := by simp [seqsAgree]
@@ -695,9 +785,14 @@ theorem canon_head_ne_rb (u : List Part) (hc : canon u = true) (c : UInt8) (r : 
     cases p with
     | lit v =>
       simp only [canonPart] at hp
-      obtain ⟨x, y, rfl, hx, _, _⟩ := safe_head_ne v hp
-      simp only [render_cons, renderPart_lit, List.cons_append, List.cons.injEq] at h
-      rw [← h.1]; exact hx
+      cases v with
+      | nil => simp [innerLit] at hp
+      | cons x y =>
+        simp only [render_cons, renderPart_lit, List.cons_append, List.cons.injEq] at h
+        rw [← h.1]
+        rcases innerOk_bytes (x :: y) (innerLit_ok _ hp) x (by simp) with h1 | h1
+        · exact (safeByte_ne x h1).2.1
+        · rw [h1]; decide
     | brace s e =>
       simp only [render_cons, renderPart_brace, List.cons_append, List.cons.injEq] at h
       rw [← h.1]; decide
@@ -774,7 +869,7 @@ theorem bash_canon : ∀ (fuel : Nat) (t : List Part), canon t = true → seqsAg
       | none =>
         obtain ⟨hl, hall⟩ := splitAtBrace_none t left hsp
         subst hl
-        have hsafe : (render left).all safeByte = true := by
+        have hsafe : (render left).all topByte = true := by
           apply render_lits_safe left hall
           clear hsp hall hlen hag
           induction left with
@@ -786,7 +881,7 @@ theorem bash_canon : ∀ (fuel : Nat) (t : List Part), canon t = true → seqsAg
             rcases hq with rfl | hq
             · exact h1
             · exact ihx h2 q hq
-        simp only [bashRec, findBrace_safe _ _ _ hsafe]
+        simp only [bashRec, findBrace_top _ _ _ hsafe]
         rw [denot_allLit left hall]
       | some tr =>
         obtain ⟨seq, elems, rest⟩ := tr
@@ -835,7 +930,7 @@ theorem bash_canon : ∀ (fuel : Nat) (t : List Part), canon t = true → seqsAg
                 some (render left, joinSep [cComma] (render e :: renderElems (e' :: es')) ++
                   cRB :: render rest) := by
               rw [htext]
-              apply go_safes_lb _ hpre
+              apply go_tops_lb _ hpre
               intro _
               rw [hJ]
               intro hbad
@@ -892,7 +987,7 @@ theorem bash_canon : ∀ (fuel : Nat) (t : List Part), canon t = true → seqsAg
             have hopen : gobbleOpen true 0 (render (left ++ Part.brace true [[Part.lit a], [Part.lit b]] :: rest)) =
                 some (render left, a ++ (dots ++ (b ++ cRB :: render rest))) := by
               rw [htext]
-              apply go_safes_lb _ hpre
+              apply go_tops_lb _ hpre
               intro _ hbad
               subst hax
               rcases hbad.2 with h0 | h0
@@ -918,7 +1013,7 @@ theorem bash_canon : ∀ (fuel : Nat) (t : List Part), canon t = true → seqsAg
                 (render (left ++ Part.brace true [[Part.lit a], [Part.lit b], [Part.lit c]] :: rest)) =
                 some (render left, a ++ (dots ++ (b ++ (dots ++ (c ++ cRB :: render rest))))) := by
               rw [htext]
-              apply go_safes_lb _ hpre
+              apply go_tops_lb _ hpre
               intro _ hbad
               subst hax
               rcases hbad.2 with h0 | h0
